@@ -449,6 +449,9 @@ func (s *Sched) armTrans(t *Thread, i int, a arm, r []trans) []trans {
 			return append(r, trans{t: t, arm: i})
 		}
 		for _, u := range s.threads {
+			if len(c.buf) > 0 {
+				break // a receiver is only ever waiting while the buffer is empty
+			}
 			if u == t || u.pend == nil || u.done {
 				continue
 			}
